@@ -16,7 +16,10 @@ Inductive case :=
 (** Throttled sequences whose delays (each below the limit, in the unit the client reads) add up beyond
     MaxElapsedTime, then a collector that never recovers: specification only ([Spec.throttled_ok]). *)
 | CThrottled (exporter : N) (max_ns min_delay_ns : Z) (delays : list Z)
-             (attempts : nat) (bodies : list N) (gaps : list Z) (err : N) (elapsed_ns : Z).
+             (attempts : nat) (bodies : list N) (gaps : list Z) (err : N) (elapsed_ns : Z)
+(** One export of a concurrent burst (HTTP exporters, with or without gzip): [decoded] = hash of the
+    decompressed body of each attempt (0 when it does not decompress), [own] = it decodes to this export's payload. *)
+| CBurst (exporter : N) (gzip : bool) (attempts : nat) (decoded : list N) (own : list bool) (err handled : N).
 
 Definition flag (b : bool) (code : N) : list N := if b then [] else [code].
 
@@ -65,6 +68,11 @@ Definition check_case (c : case) : list N :=
             then [V_KNOWN 1] else [V_SPECFAIL])
   | CThrottled exporter max_ns min_delay_ns delays attempts bodies gaps err elapsed_ns =>
       flag (throttled_ok max_ns min_delay_ns delays attempts bodies gaps err elapsed_ns) V_SPECFAIL
+  | CBurst exporter gzip attempts decoded own err handled =>
+      let m := model_run true 0 None [RespHttp 503 None false; RespHttp 200 None false] in
+      flag (Nat.eqb (Types.attempts m) attempts && (class_of_result (res m) =? err)%N &&
+            (N.of_nat (Types.handled m) =? handled)%N) V_MISMATCH ++
+      flag (burst_ok attempts decoded own err) V_SPECFAIL
   end.
 
 Definition run (cs : list case) : list (N * N) := index_from 0 check_case cs.
